@@ -17,6 +17,7 @@
  *   STATE              filter state of the current thread -> "S in out depth max time size idx ridx enabled"
  *   DUMP               records this thread has written to its shm buffers so far -> "R ..." lines, "END"
  *   TEND               current worker thread exits (runs libmcount's thread destructor), then DUMP
+ *   TPEXIT             current worker thread ends in pthread_exit() (libmcount's wrapper records the open calls), then DUMP
  *   FORK               fork(); the child continues with the script, the parent waits and exits
  *   TIME <t>           set the fake clock only
  *   VAL <name> <v>     set an interposed value source (pagefault, cpu, statm, var)
@@ -653,11 +654,14 @@ static void *worker(void *arg)
 	for (;;) {
 		while (!dv->line)
 			pthread_cond_wait(&dv->cv, &dv->mu);
-		if (!strncmp(dv->line, "TEND", 4)) {
+		if (!strncmp(dv->line, "TEND", 4) || !strncmp(dv->line, "TPEXIT", 6)) {
+			int pexit = dv->line[1] == 'P';
 			dv->line = NULL;
 			dv->done = 1;
 			pthread_cond_broadcast(&dv->cv);
 			pthread_mutex_unlock(&dv->mu);
+			if (pexit)
+				pthread_exit(NULL); /* libmcount's wrapper: the open calls are recorded and dropped */
 			return NULL; /* thread exit runs mtd_dtor through the TSD destructor */
 		}
 		do_op(dv, dv->line);
@@ -786,7 +790,7 @@ int main(void)
 			printf("OBJ\n");
 			continue;
 		}
-		if (!strncmp(line, "TEND", 4)) {
+		if (!strncmp(line, "TEND", 4) || !strncmp(line, "TPEXIT", 6)) {
 			int tid = drv[cur].tid;
 			if (cur != 0) {
 				dispatch(cur, line);
